@@ -286,6 +286,9 @@ def rule_boundary_and_apply(ctx):
         Rf = Form.atom(("idx", y, SliceV(Const(None), half, Const(None))))
         Sf = Form.atom(("idx", y, SliceV(half, Const(None), Const(None))))
         wants.append(Sf / Rf)
+    if ok_y0:
+        # the state was built as [ones(N), zeros(N)] (checked above), so the column has 2N entries and N is its half
+        wants.append(Form.atom(("idx", y, SliceV(n, Const(None), Const(None)))) / Form.atom(("idx", y, SliceV(Const(None), n, Const(None)))))
     ctx.check("C16.1", isinstance(H0, Form) and H0 in wants, fi, H0stmt, "FBG: H = S/R of the final solution column", "reflection coefficient rho = S/R at z=-1/2",
               "H is not S/R of sol.y[:, -1] (with R the first and S the second half): e.g. R/S exceeds 1 in magnitude")
     # filtfilt correction and application
